@@ -154,7 +154,7 @@ theorem scanNormal_complete {d : Daemon} (h : Inv d) (hnow : d.now < 2 ^ 62) (hb
     is outstanding: whatever is expired gets closed (with `savePrev` the side condition is not needed
     for the traversal to go on; this version holds for both settings of the flag) -/
 theorem travSel_complete (v : Variant) (rs : List Id) : ∀ (l : List Id) (d : Daemon) (i : Id), l.Nodup → i ∈ l →
-    (∀ j, j ∈ l → j ∈ d.conns ∧ (d.c j).closed = false ∧ rs.contains j = false) →
+    (∀ j, j ∈ l → j ∈ d.conns ∧ (d.c j).closed = false ∧ rs.contains j = false ∧ (d.c j).replying = false) →
     checkTimedOut d.now (d.c i) = true →
     Event.tmoClose i (d.c i).aware ∈ (travSel v rs l d).2
   | [], _, _, _, hi, _, _ => absurd hi List.not_mem_nil
@@ -163,11 +163,11 @@ theorem travSel_complete (v : Variant) (rs : List Id) : ∀ (l : List Id) (d : D
     dsimp only
     have hj := hall j (List.mem_cons_self ..)
     have hnr : j ∉ rs := by
-      have := hj.2.2
+      have := hj.2.2.1
       intro hm; rw [List.contains_iff_mem.2 hm] at this; cases this
     have hcall0 : callHandlersSel0 v d j (rs.contains j) = handleIdleP d j := by
       unfold callHandlersSel0
-      simp [hj.2.1, hnr]
+      simp [hj.2.1, hnr, hj.2.2.2]
     have sP := procBuf_same d j
     have hidle : handleIdleP d j = idleCheck (procBuf d j) j := by
       unfold handleIdleP handleIdle
@@ -195,7 +195,7 @@ theorem travSel_complete (v : Variant) (rs : List Id) : ∀ (l : List Id) (d : D
           have hkj : k ≠ j := fun x => hnd'.1 (x ▸ hk)
           have hk' := hall k (List.mem_cons_of_mem _ hk)
           rw [(o.2.2.2.2 k hkj).2.2.2]
-          exact ⟨((o.2.2.2.2 k hkj).1).2 hk'.1, hk'.2.1, hk'.2.2⟩)
+          exact ⟨((o.2.2.2.2 k hkj).1).2 hk'.1, hk'.2.1, hk'.2.2.1, hk'.2.2.2⟩)
         (by rw [hrec, hnow]; exact ht)
       rw [hrec] at this
       exact List.mem_append_right _ this
